@@ -10,5 +10,5 @@ mkdir -p "$d/full" "$d/ov"
 git -C /repo archive HEAD | tar -x -C "$d/full"
 ( cd "$d/full" && patch -s -p1 < "$patch" ) || { echo "patch failed"; exit 2; }
 ( cd "$d/full" && for f in $(grep -E '^\+\+\+ b/' "$patch" | sed 's#^+++ b/##'); do mkdir -p "$d/ov/$(dirname $f)"; cp "$f" "$d/ov/$f"; done )
-"$bin" -prop "$props" -noevidence -overlay "$d/ov" 2>&1 | grep -E "violated|^C[0-9]+:.* [1-9][0-9]* violations|checker error|FATAL" | cut -c1-${OVCOLS:-260}
+"$bin" -prop "$props" -noevidence -overlay "$d/ov" 2>&1 | grep -E "violated|undecided|^C[0-9]+:.* [1-9][0-9]* violations|checker error|FATAL" | cut -c1-${OVCOLS:-260}
 exit 0
